@@ -60,7 +60,7 @@ func cancelTestHelper(c *Ctx) string {
 					continue
 				}
 				if cal := calleeOf(cc.Common()); cal != nil && c.P.InScope[cal] && cal.Pkg == fn.Pkg {
-					name = cal.Name()
+					name = canonName(cal)
 				}
 			}
 		}
